@@ -21,6 +21,8 @@ ALL = "C01 C02 C03 C04 C05 C06 C08 C09 C10 C11 C12 C13 C14 C15 C16 C17 C18 C19 C
 def main():
     args = sys.argv[1:]
     params = "--params" in args
+    noise = "--noise" in args          # also insert a no-op call in front of every statement
+    norename = "--no-rename" in args
     keep = "--keep" in args
     only = None
     suffix = "_rn"
@@ -59,8 +61,18 @@ def main():
     edits = {}
     nb = nskip = 0
     seen = set()
+    nnoise = 0
     for fpath in sorted(glob.glob(os.path.join(rdir, "*.rename.json"))):
-        for b in json.load(open(fpath))["bindings"]:
+        doc = json.load(open(fpath))
+        if noise:
+            for s in doc.get("stmts", []):
+                key = (s["file"], s["lo"], "noise")
+                if key in seen:
+                    continue
+                seen.add(key)
+                nnoise += 1
+                edits.setdefault(s["file"], []).append((s["lo"], 0, "", "::std::hint::black_box(()); "))
+        for b in ([] if norename else doc["bindings"]):
             if not b["renamable"] or (b["param"] and not params):
                 nskip += 1
                 continue
@@ -92,13 +104,14 @@ def main():
             raw_of.append(j)
             j += 1
         raw_of.append(len(data))
-        for lo, ln, old, new in sorted(es, reverse=True):
+        # at equal offsets the inserted statement (length 0) must end up in front of a renamed token
+        for lo, ln, old, new in sorted(es, key=lambda x: (x[0], x[1]), reverse=True):
             lo = raw_of[lo]
             assert data[lo:lo + ln].decode() == old, (rel, lo, data[lo:lo + ln], old)
             data = data[:lo] + new.encode() + data[lo + ln:]
         open(p, "wb").write(data)
         nfiles += 1
-    print("renamed %d bindings (%d left alone) in %d files" % (nb, nskip, nfiles))
+    print("renamed %d bindings (%d left alone), inserted %d no-op statements, in %d files" % (nb, nskip, nnoise, nfiles))
     bad = 0
     for pid in ids:
         r = subprocess.run([os.path.join(VERIF, "check"), pid], env=dict(os.environ, VERIF_REPO=dst), cwd=VERIF, stdout=subprocess.PIPE, text=True)
